@@ -22,9 +22,9 @@ LEVEL = "exploration"
 RULE = ("histories of 3-25 steps on one ReconnectLogic + APIClient from {start(), stop(), stop_callback(); set the device/network behaviour of the following "
         "attempts to ok | refuse | unreachable name | TCP hang | garbage at hello | silent | invalid password | requires encryption | wrong noise key; end the "
         "session by device EOF / RST / DisconnectRequest / garbage or by the user's disconnect() / disconnect(force); inject an mDNS batch (matching PTR, "
-        "matching A, both, PTR/A of another device); advance 0 / 1 ms / 0.5 / 1 / 2 / 3 / 5 / 6 / 10 / 60 s or to exactly the manager's armed retry timer "
+        "matching A, both, the same as refresh of a cached record (old != None), PTR/A of another device); advance 0 / 1 ms / 0.5 / 1 / 2 / 3 / 5 / 6 / 10 / 60 s or to exactly the manager's armed retry timer "
         "(- 1 ms, +0, + 1 ms)}; client addressed by FQDN or IP literal (name given) or by x.local through the fake mDNS; plaintext or noise client; supplied or "
-        "library-created zeroconf; ALL histories up to length 3 (quick) / 4 (thorough) over a 10-symbol alphabet, seeded random beyond. Trace checker: (a) a "
+        "library-created zeroconf; ALL histories up to length 3 (quick) / 4 (thorough) over an 11-symbol alphabet, seeded random beyond. Trace checker: (a) a "
         "start_connection never enters while another start/finish is in progress, connection objects never overlap; (b) every attempt instant is justified "
         "(a start() call, failure + min(round(1.8^n),60) s with n = failures reported since the last success/start, 60 s after an auth/encryption-class "
         "error, disconnect +0 / +5 s, a matching mDNS record delivered to the registered listener while waiting or connecting - not while handshaking or "
@@ -67,7 +67,12 @@ def records(kind: str, name: str = "dev") -> list[Any]:
     def a(n: str) -> Any:
         return RecordUpdate(DNSAddress(f"{n}.local.", _TYPE_A, _CLASS_IN, 120, bytes([10, 0, 0, 1])), None)
 
+    def refresh(r: Any) -> Any:
+        # the device was seen before: zeroconf hands over the cached record as `old` (a reboot within the TTL looks exactly like this)
+        return RecordUpdate(r.new, r.new)
+
     return {"match-ptr": [ptr(name)], "match-a": [a(name)], "match-both": [ptr("other"), a(name), ptr(name)],
+            "match-ptr-refresh": [refresh(ptr(name))], "match-a-refresh": [refresh(a("other")), refresh(a(name))],
             "nomatch-ptr": [ptr("other")], "nomatch-a": [a("other")], "nomatch-both": [ptr("other2"), a("dev2")]}[kind]
 
 
@@ -559,7 +564,7 @@ VARIANTS = [{"addr": a, "noise": n, "zc": z, "slow_cb": sc} for a in ("ip", "loc
 
 ALPHABET: list[Any] = [
     ["start"], ["stop"], ["world", "refuse"], ["world", "ok"], ["run", 2.0], ["run", "timer"], ["mdns", "match-ptr"], ["mdns", "nomatch-a"],
-    ["dev", "eof"], ["dev", "discreq"],
+    ["dev", "eof"], ["dev", "discreq"], ["mdns", "match-a-refresh"],
 ]
 RUNS: list[Any] = [0, 0.001, 0.5, 1.0, 2.0, 3.0, 5.0, 6.0, 10.0, 60.0, "timer-", "timer", "timer+"]
 
@@ -576,7 +581,7 @@ def gen_history(rng: Any) -> list[Any]:
         elif r < 0.40:
             h.append(["world", rng.choice(WORLDS) if rng.random() < 0.6 else "ok"])
         elif r < 0.55:
-            kind = rng.choice(["match-ptr", "match-a", "match-both", "nomatch-ptr", "nomatch-a", "nomatch-both"])
+            kind = rng.choice(["match-ptr", "match-a", "match-both", "match-ptr-refresh", "match-a-refresh", "nomatch-ptr", "nomatch-a", "nomatch-both"])
             h.append(["mdns", kind, "at-timer"] if rng.random() < 0.2 else ["mdns", kind])
         elif r < 0.70:
             h.append(["dev", rng.choice(["eof", "rst", "discreq", "garbage"])])
@@ -657,7 +662,7 @@ def shard(ctx: Ctx) -> None:
 
 
 def exhaustive(tier: str) -> Any:
-    return [f"all histories 'start' + up to {4 if tier == 'thorough' else 3} symbols of the 10-symbol alphabet {ALPHABET} (variant rotating)",
+    return [f"all histories 'start' + up to {4 if tier == 'thorough' else 3} symbols of the 11-symbol alphabet {ALPHABET} (variant rotating)",
             "backoff ladder of 5+ consecutive failures for each failure kind x variant"]
 
 
